@@ -1,7 +1,7 @@
 (* C13 — obligations relating the text regenerated from oag.py / writable_database.py / units.py /
    types/time.py on this run (Gen.C13_Extracted) to the model the theorems are about. *)
 From Coq Require Import ZArith List String Bool Ascii Lia.
-From AV Require Import lib.Dates model.C13_Model.
+From AV Require Import lib.Dates model.C13_Model model.C13_Parse.
 From Gen Require Import C13_Extracted.
 Import ListNotations.
 Open Scope Z_scope.
@@ -48,3 +48,12 @@ Print Assumptions C13_link_date_defaults.
 Theorem C13_link_dow_mask : make_dow_mask = dow_mask /\ dayofweek_values = [1; 2; 3; 4; 5; 6; 7].
 Proof. split; reflexivity. Qed.
 Print Assumptions C13_link_dow_mask.
+
+(* the CSV conventions of from_csv_row (date markers and YYYYMMDD split, hhmm split, day-offset codes,
+   weekday digits 1..7) are the model's; the field mapping and the catch-all `return None` are checked by
+   the extractor itself *)
+Theorem C13_link_csv_conventions :
+  src_parse_date = parse_date /\ src_parse_time = parse_time /\ src_parse_arrday = parse_arrday
+  /\ src_parse_days = parse_days.
+Proof. repeat split; reflexivity. Qed.
+Print Assumptions C13_link_csv_conventions.
